@@ -842,13 +842,14 @@ class FnView:
         return v or f
 
     def __getitem__(self, k):
-        if not self.prog.inline_mode:
-            self.prog.requested.add(k)        # looked up by a rule on the plain evaluation: an atom of this run's vocabulary
+        return self._v(self.raw[k])
+
+    def view(self, k):
+        """the function (its inlined view when the inlined evaluation is on) without recording it as looked up by a rule:
+        for iterations over everything"""
         return self._v(self.raw[k])
 
     def get(self, k, d=None):
-        if not self.prog.inline_mode and k in self.raw:
-            self.prog.requested.add(k)
         f = self.raw.get(k)
         return self._v(f) if f is not None else d
 
@@ -975,9 +976,13 @@ class Program:
 
     # ---- lookup ---------------------------------------------------------------
     def fn(self, fid):
+        """the function a rule is about, by id. On the plain evaluation the lookup is recorded: such a function is part of
+        this run's vocabulary and is not dissolved into its callers on the inlined views (inline.is_atom)"""
         f = self.fns.get(fid)
         if f is None:
             raise AnchorMissing("function `%s` not found" % fid)
+        if not self.inline_mode:
+            self.requested.add(fid)
         return f
 
     def where_of(self, fid):
@@ -991,11 +996,16 @@ class Program:
              and (f.impl_trait == trait)]
         if len(c) != 1:
             raise AnchorMissing("method `%s` of `%s`%s: %d candidates" % (name, adt, " as " + trait if trait else "", len(c)))
+        if not self.inline_mode:
+            self.requested.add(c[0].id)
         return self.fns[c[0].id]        # a lookup by name: the inlined view when the inlined evaluation is on
 
     def find_fns(self, pattern):
         rx = re.compile(pattern)
-        return [self.fns[k] for k, f in sorted(self.fns.items()) if rx.search(k)]     # lookups by name: inlined views when on
+        hits = [k for k, f in sorted(self.fns.items()) if rx.search(k)]
+        if not self.inline_mode:
+            self.requested.update(hits)
+        return [self.fns[k] for k in hits]     # lookups by name: inlined views when on
 
     def methods_of(self, adt):
         return [f for f in self.fns.values() if f.impl_adt == adt and f.kind == "assoc"]
